@@ -567,7 +567,15 @@ func c05Worker(args []string) int {
 			if sig, what := c05Check(gen, logs, lastInit, x, h); sig != "" {
 				// Re-run the same schedule 5x: identical observations or it is
 				// a harness problem, not a violation.
-				for k := 0; k < 5; k++ {
+				// A blocked execution costs three watchdog periods to recognise:
+				// it is confirmed once more and then ends the exploration of
+				// this job (every further schedule would block the same way).
+				blocked := sig == "wedge" || x.Deadlock != ""
+				reruns := 5
+				if blocked {
+					reruns = 1
+				}
+				for k := 0; k < reruns; k++ {
 					x2, h2, env2, ini2 := c05RunOne(u, store, la, lb, sc, x.Choices())
 					if x2.Deadlock == "" && x2.Wedged == "" {
 						env2.Close()
@@ -584,7 +592,7 @@ func c05Worker(args []string) int {
 					}
 				}
 				res.Violations = append(res.Violations, c05Violation{Signature: sig, What: what, Choices: x.Choices(), Trace: x.Trace})
-				if len(res.Violations) >= 5 {
+				if len(res.Violations) >= 5 || blocked {
 					return false
 				}
 			}
